@@ -581,7 +581,7 @@ def scratch_maker_obligations(repo, chk, rule, why):
                     return r
         return None
     tr = repo.func("transform.transform")
-    tests = [n for n in walk_local(tr.node) if isinstance(n, ast.If) and isinstance(n.test, ast.Compare) and isinstance(n.test.ops[0], ast.In)
+    tests = [n for n in walk_local(tr.node) if isinstance(n, ast.If) and isinstance(n.test, ast.Compare) and isinstance(n.test.ops[0], (ast.In, ast.NotIn))
              and isinstance(n.test.left, ast.Constant) and n.test.left.value == "#WRAP"]
     ok, found = False, "no `'#WRAP' in <globals>` branch"
     # the same decision written as a conditional expression
@@ -589,7 +589,8 @@ def scratch_maker_obligations(repo, chk, rule, why):
               and isinstance(n.test.left, ast.Constant) and n.test.left.value == "#WRAP"]
     if len(tests) + len(conds_) == 1:
         if tests:
-            st = tests[0].body[0]
+            br = tests[0].body if isinstance(tests[0].test.ops[0], ast.In) else tests[0].orelse
+            st = br[0] if br else ast.Pass()
             val = st.value if isinstance(st, (ast.Assign, ast.Expr, ast.Return)) else None
         else:
             st = val = conds_[0].body
